@@ -836,6 +836,55 @@ def mpl_other_case(ctx, index, rng: random.Random):
     rec.case([kind, pts.tolist()], True, cls=f"mpl/{kind}")
 
 
+def default_backend_case(ctx, index, rng: random.Random):
+    """The backend registry: the default backend is what set_default_backend chose (unknown names refused, nothing changed by
+    the refusal) and plot() without a backend argument dispatches to it; the previous default is put back afterwards."""
+    import matplotlib
+
+    matplotlib.use("Agg")
+    import matplotlib.pyplot as plt
+    import physt.plotting as pp
+
+    rec = ctx.rec
+    rec.mon("C20.artists")
+    h, _ = make_1d(rng)
+    old = pp.get_default_backend()
+    name = rng.choice(sorted(set(pp.backends) & {"matplotlib", "plotly", "ascii"}))
+    try:
+        try:
+            pp.set_default_backend(rng.choice(["no_such_backend", "bokeh", ""]))
+            rec.fail(monitor="C20.artists", op="set_default_backend", symptom="unknown backend accepted as the default", diff=["not_refused"], detail={})
+        except Exception:
+            if pp.get_default_backend() != old:
+                rec.fail(monitor="C20.artists", op="set_default_backend", symptom="a refused default backend changed the default", diff=["default_backend"], detail={})
+        pp.set_default_backend(name)
+        if pp.get_default_backend() != name:
+            rec.fail(monitor="C20.artists", op="set_default_backend", symptom="get_default_backend does not return the backend that was set", diff=["default_backend"],
+                     detail={"set": name, "got": pp.get_default_backend()})
+        buf = io.StringIO()
+        with warnings.catch_warnings(), contextlib.redirect_stdout(buf):
+            warnings.simplefilter("ignore")
+            kind_ = "hbar" if name == "ascii" else "bar"
+            res = h.plot(kind_) if rng.random() < 0.5 else pp.plot(h, kind_)
+        with attach.quiet():
+            if name == "ascii":
+                ok = res is None and len(buf.getvalue().splitlines()) == h.bin_count
+            elif name == "plotly":
+                ok = type(res).__module__.startswith("plotly")
+            else:
+                ok = hasattr(res, "patches") and buf.getvalue() == ""
+            if not ok:
+                rec.fail(monitor="C20.artists", op="plot()", symptom="plot() without a backend argument did not use the default backend", diff=["backend"],
+                         detail={"default": name, "result": type(res).__name__})
+    except Exception as e:
+        rec.fail(monitor="C20.artists", op="default backend", symptom=f"default backend handling raised {type(e).__name__}", diff=["raised"], detail={"error": str(e)[:160], "backend": name})
+    finally:
+        if old is not None:
+            pp.set_default_backend(old)
+        plt.close("all")
+    rec.case(["default_backend", name], True, cls=f"default_backend/{name}")
+
+
 def attach_monitors():
     import physt.plotting as pp
 
@@ -854,6 +903,7 @@ def run(ctx):
     ctx.run_cases(ctx.scale(50, 400), mpl_2d_case, salt="mpl2d")
     ctx.run_cases(ctx.scale(30, 200), mpl_special_2d_case, salt="mplspecial")
     ctx.run_cases(ctx.scale(12, 80), mpl_other_case, salt="mplother")
+    ctx.run_cases(ctx.scale(8, 40), default_backend_case, salt="default")
     ctx.run_cases(ctx.scale(120, 800), plotly_case, salt="plotly")
     ctx.run_cases(ctx.scale(60, 300), ascii_case, salt="ascii")
     ctx.run_cases(ctx.scale(30, 120), refusal_case, salt="refusal")
